@@ -2,7 +2,7 @@
    every oracle; the table-client glue; the refutation witnesses and the examples. *)
 From Coq Require Import List NArith ZArith Bool Lia Permutation String.
 From DepsDev Require Import Lib.Base Gen.PypiTables Resolve.Pypi Resolve.Pypi_lists_proofs
-     Resolve.Pypi_inv_proofs Resolve.Pypi_graph_proofs Resolve.Pypi_fuel_proofs Resolve.Pypi_spec Resolve.Pypi_examples.
+     Resolve.Pypi_inv_proofs Resolve.Pypi_graph_proofs Resolve.Pypi_fuel_proofs Resolve.Pypi_exact_proofs Resolve.Pypi_spec Resolve.Pypi_examples.
 Import ListNotations.
 
 Section Top.
@@ -437,3 +437,96 @@ Lemma example_state :
                (tab_cons_ok ex_backtrack_table) (tab_match_pre ex_backtrack_table) (tab_ver_lt ex_backtrack_table)
                ex_backtrack_root 100 = Ok st /\ length (mapping st) = 5%nat.
 Proof. eexists. split; vm_compute; reflexivity. Qed.
+
+(* ---------- exactness of the candidates of a criterion ---------- *)
+From Coq Require Import Sorted.
+
+(* at full strength (no assumption on the order of the provider's answers) the statement is false *)
+Definition candidates_exact_full : Prop :=
+  forall c_versions c_requirements c_matching marker_true has_pre constraint_ok match_pre ver_lt root fuel st,
+    client_wf c_versions c_requirements c_matching ->
+    resolve_state_fuel c_versions c_requirements c_matching marker_true has_pre constraint_ok match_pre ver_lt root fuel = Ok st ->
+    exact_state c_versions c_matching has_pre constraint_ok match_pre ver_lt root st.
+
+(* r -> a, b; a -> x>=1; b -> x<3; the client answers the two requirements on x in opposite orders: [1.0; 2.0] and [2.0; 1.0].
+   intersect walks the second list once, finds 1.0 at its end and has nothing left for 2.0 *)
+Definition ex_order_root : vkey := mkvk (bs "r") 1 (bs "1.0").
+Definition ex_order_table : table := {|
+  t_versions := [];
+  t_requirements := [(mkvk (bs "r") 1 (bs "1.0"), Ok [mkrq (bs "a") 2 (bs "") []; mkrq (bs "b") 2 (bs "") []]);
+                     (mkvk (bs "a") 1 (bs "1.0"), Ok [mkrq (bs "x") 2 (bs ">=1") []]);
+                     (mkvk (bs "b") 1 (bs "1.0"), Ok [mkrq (bs "x") 2 (bs "<3") []]);
+                     (mkvk (bs "x") 1 (bs "1.0"), Ok []); (mkvk (bs "x") 1 (bs "2.0"), Ok [])];
+  t_matching := [(mkvk (bs "a") 2 (bs ""), Ok [mkvk (bs "a") 1 (bs "1.0")]);
+                 (mkvk (bs "b") 2 (bs ""), Ok [mkvk (bs "b") 1 (bs "1.0")]);
+                 (mkvk (bs "x") 2 (bs ">=1"), Ok [mkvk (bs "x") 1 (bs "1.0"); mkvk (bs "x") 1 (bs "2.0")]);
+                 (mkvk (bs "x") 2 (bs "<3"), Ok [mkvk (bs "x") 1 (bs "2.0"); mkvk (bs "x") 1 (bs "1.0")])];
+  t_markers := [];
+  t_cons := [(bs "", (true, false)); (bs ">=1", (true, false)); (bs "<3", (true, false))];
+  t_prem := [];
+  t_vlt := []
+|}.
+
+Theorem candidates_exact_refuted : ~ candidates_exact_full.
+Proof.
+  intros Full.
+  assert (Hok : table_ok_b ex_order_table = true) by (vm_compute; reflexivity).
+  destruct (table_ok _ Hok) as [W _].
+  assert (R : exists st, resolve_state_fuel (tab_versions ex_order_table) (tab_requirements ex_order_table)
+                (tab_matching ex_order_table) (tab_marker ex_order_table) (tab_has_pre ex_order_table)
+                (tab_cons_ok ex_order_table) (tab_match_pre ex_order_table) (tab_ver_lt ex_order_table)
+                ex_order_root 50 = Ok st /\
+              exists c, crit_get (criteria_of st) (bs "x") = Some c /\
+                c_cands c = [mkvk (bs "x") 1 (bs "1.0")] /\ c_incompat c = [] /\
+                reqs_of c = [mkrq (bs "x") 2 (bs ">=1") []; mkrq (bs "x") 2 (bs "<3") []]).
+  { eexists. split; [vm_compute; reflexivity|]. eexists. split; [vm_compute; reflexivity|].
+    split; [vm_compute; reflexivity|]. split; vm_compute; reflexivity. }
+  destruct R as (st & Rs & c & Gc & Hc & Hi & Hr).
+  pose proof (Full _ _ _ _ _ _ _ _ _ _ _ W Rs _ _ Gc (mkvk (bs "x") 1 (bs "2.0"))) as [_ B].
+  assert (Hin : In (mkvk (bs "x") 1 (bs "2.0")) (c_cands c)).
+  { apply B. rewrite Hi, Hr. split; [|intros []].
+    intros r [E|[E|[]]]; subst r; eexists; (split; [vm_compute; reflexivity | vm_compute; auto]). }
+  rewrite Hc in Hin. destruct Hin as [E|[]]. vm_compute in E. discriminate.
+Qed.
+
+(* the hypotheses of the positive statement are satisfiable: a client that always answers
+   [a 1; a 10], ordered by the length of the version string *)
+Definition ex_lt (u v : vkey) : Prop := (length (vk_ver u) < length (vk_ver v))%nat.
+
+Lemma example_order_hypotheses :
+  let cm := fun _ : vkey => Ok [mkvk (bs "a") 1 (bs "1"); mkvk (bs "a") 1 (bs "10")] in
+  let root := mkvk (bs "r") 1 (bs "1") in
+  (forall a, ~ ex_lt a a) /\ (forall a b c, ex_lt a b -> ex_lt b c -> ex_lt a c) /\
+  (forall pre rq l, gm (fun _ => Err 0) cm (fun _ => true) (fun _ => true) (fun _ _ => false) (fun _ _ => false) root pre rq = Ok l ->
+                    StronglySorted ex_lt l) /\
+  exists st, resolve_state_fuel (fun _ => Err 0) (fun _ => Ok []) cm (fun _ _ => Ok true) (fun _ => true) (fun _ => true)
+               (fun _ _ => false) (fun _ _ => false) root 10 = Ok st.
+Proof.
+  intros cm root. unfold ex_lt. split; [intros a; lia|]. split; [intros a b c; lia|]. split.
+  - intros pre rq l H.
+    assert (M : matching_versions cm root rq = Ok l).
+    { unfold gm, matching_versions_pre in H. destruct pre; auto. }
+    unfold matching_versions, cm in M. simpl in M.
+    destruct (negb (bytes_eqb (vk_name rq) [114])); inversion M; subst; repeat constructor; simpl; lia.
+  - eexists. vm_compute. reflexivity.
+Qed.
+
+(* hypotheses of the conflict-soundness statements are satisfiable: a client that knows no version of
+   anything; the root requires a; the direct dependencies are reported unsatisfiable *)
+Lemma example_initial_conflict :
+  let cm := fun _ : vkey => Ok ([] : list vkey) in
+  let cr := fun _ : vkey => Ok [mkrq (bs "a") 2 (bs "") []] in
+  let root := mkvk (bs "r") 1 (bs "1") in
+  (forall pre rq l, gm (fun _ => Err 0) cm (fun _ => true) (fun _ => true) (fun _ _ => false) (fun _ _ => false) root pre rq = Ok l ->
+                    StronglySorted ex_lt l) /\
+  init_criteria (fun _ => Err 0) cm (fun _ => true) (fun _ => true) (fun _ _ => false) (fun _ _ => false) root
+                empty_state [mkrq (bs "a") 2 (bs "") []] = Err EImpossible.
+Proof.
+  intros cm cr root. split.
+  - intros pre rq l H.
+    assert (M : matching_versions cm root rq = Ok l).
+    { unfold gm, matching_versions_pre in H. destruct pre; auto. }
+    unfold matching_versions, cm in M. simpl in M.
+    destruct (negb _); inversion M; subst; constructor.
+  - vm_compute. reflexivity.
+Qed.
